@@ -14,6 +14,9 @@ error kind) is compared with a class-body reference model:
   * a class defining nothing inherits by plain attribute lookup (UNSPEC when more than one base has it);
 because the model of an older class never changes, "bases and siblings keep exactly their previous
 behaviour" is the same comparison repeated after each later class statement.
+Half of the hierarchies are spread over two module namespaces, and after the last class statement one more definition
+is registered (``K.f.register``) on the overloaded method of a class without descendants: that class must dispatch over
+it as well (also from its recurse / call_next sites, whichever module they were defined in), every other class as before.
 """
 from .. import boot  # noqa: F401
 from ..methods import load_source, forget
@@ -36,7 +39,7 @@ ASSUMPTIONS = [
 ]
 REPORT_COUNTERS = ["hierarchies", "class_statements", "probes", "extend_super_2bases", "plain_single_def",
                    "create_subclass", "self_identity_checked", "call_next_sites", "recurse_sites", "mc_roots", "f21_region_probes",
-                   "marked_mixins_merged_by_empty_class"]
+                   "marked_mixins_merged_by_empty_class", "late_registrations", "late_registrations_across_modules"]
 
 TYPES = ["int", "str", "float", "bytes", "list", "bool", "object", "type[int]", "type[object]", "EVEN", "GE3"]
 DEP = {"EVEN": lambda v: v % 2 == 0, "GE3": lambda v: v >= 3}      # value conditions over int (names bound in the case's globals)
@@ -69,7 +72,7 @@ def plan(tier):
     return {"cases": n, "params": {}, "timeout_s": 900 if tier == "quick" else 3600,
             "min": {"probes": 50_000, "extend_super_2bases": 200, "self_identity_checked": 10_000,
                     "call_next_sites": 500, "recurse_sites": 500,
-                    "marked_mixins_merged_by_empty_class": 100}}
+                    "marked_mixins_merged_by_empty_class": 100, "late_registrations_across_modules": 300}}
 
 
 # ------------------------------------------------------------------------------------------- generation
@@ -174,7 +177,14 @@ def gen_case(rng, params, idx):
                     mid += 1
         classes.append({"name": name, "bases": bases, "root": kindroot, "ovldcls": ovldcls, "defs": defs,
                         "create": use_create})
-    return {"classes": classes}
+    spec = {"classes": classes}
+    if idx % 2 == 0:
+        # the hierarchy is spread over two modules (a library's base classes extended elsewhere), and once everything
+        # has been used, one more definition is registered on the overloaded method of one class
+        spec["modules"] = [rng.randint(0, 1) for _ in classes]
+        spec["late"] = {"nm": rng.choice(NAMES), "t": rng.choice(TYPES), "mod": rng.randint(0, 1), "pick": rng.random(),
+                        "kind": rng.choice(["leaf", "leaf", "next"])}
+    return spec
 
 
 def class_source(c, classes):
@@ -370,40 +380,17 @@ def check_case(spec, res):
     ns = {"VF_": vf, "OvldBase": OvldBase, "OvldMC": OvldMC, "extend_super": extend_super,
           "recurse": ovld.recurse, "call_next": ovld.call_next,
           "EVEN": ovld.Dependent[int, DEP["EVEN"]], "GE3": ovld.Dependent[int, DEP["GE3"]]}
+    ns2 = dict(ns)
+    ns2["__name__"] = "vfcase2"
+    mods = spec.get("modules") or [0] * len(classes)
     files = []
     res.count("hierarchies")
     res.sample(spec)
     has_mi = any(len(c["bases"]) > 1 for c in classes)
     ext2 = False
     built = []
-    for ci, c in enumerate(classes):
-        src = class_source(c, classes)
-        try:
-            if src is None:
-                res.count("create_subclass")
-                b0 = ns[classes[c["bases"][0]]["name"]]
-                ns[c["name"]] = b0.create_subclass(*[ns[classes[b]["name"]] for b in c["bases"][1:]], name=c["name"])
-            else:
-                _, f = load_source(src, ns, tag="c17", shared=True)
-                files.append(f)
-        except Exception as e:  # noqa: BLE001
-            f20 = any(any(d["ext"] for d in [x for x in c["defs"] if x["name"] == nm][1:]) for nm in NAMES)
-            res.violation("class-statement-raises", [type(e).__name__, f20], spec,
-                          observed={"class": c["name"], "error": f"{type(e).__name__}: {str(e)[:80]}", "source": src},
-                          acceptable="class body executes",
-                          finding="F20" if f20 and isinstance(e, AttributeError) and "'name'" in str(e) else None)
-            break
-        res.count("class_statements")
-        if c["root"] == "mc":
-            res.count("mc_roots")
-        built.append(ci)
-        for nm in NAMES:
-            if model.n_ext_bases(ci, nm) >= 2:
-                res.count("extend_super_2bases")
-                ext2 = True
-            if model.merged_mixins(ci, nm):
-                res.count("marked_mixins_merged_by_empty_class")
-        for cj in built:
+    def probe_all(model, classes, ci, c):
+        for cj in list(built):
             cls = ns[classes[cj]["name"]]
             for nm in NAMES:
                 e = model.eff(cj, nm)
@@ -489,6 +476,85 @@ def check_case(spec, res):
                                       observed={"class": classes[cj]["name"], "after": c["name"], "name": nm,
                                                 "value": repr(v), "got": repr(got)[:160]},
                                       acceptable=repr(exp)[:160])
+
+    for ci, c in enumerate(classes):
+        src = class_source(c, classes)
+        try:
+            if src is None:
+                res.count("create_subclass")
+                b0 = ns[classes[c["bases"][0]]["name"]]
+                ns[c["name"]] = ns2[c["name"]] = b0.create_subclass(*[ns[classes[b]["name"]] for b in c["bases"][1:]], name=c["name"])
+            else:
+                home = ns2 if mods[ci] else ns
+                _, f = load_source(src, home, tag="c17", shared=True)
+                files.append(f)
+                ns[c["name"]] = ns2[c["name"]] = home[c["name"]]
+        except Exception as e:  # noqa: BLE001
+            f20 = any(any(d["ext"] for d in [x for x in c["defs"] if x["name"] == nm][1:]) for nm in NAMES)
+            res.violation("class-statement-raises", [type(e).__name__, f20], spec,
+                          observed={"class": c["name"], "error": f"{type(e).__name__}: {str(e)[:80]}", "source": src},
+                          acceptable="class body executes",
+                          finding="F20" if f20 and isinstance(e, AttributeError) and "'name'" in str(e) else None)
+            break
+        res.count("class_statements")
+        if c["root"] == "mc":
+            res.count("mc_roots")
+        built.append(ci)
+        for nm in NAMES:
+            if model.n_ext_bases(ci, nm) >= 2:
+                res.count("extend_super_2bases")
+                ext2 = True
+            if model.merged_mixins(ci, nm):
+                res.count("marked_mixins_merged_by_empty_class")
+        probe_all(model, classes, ci, c)
+    late = spec.get("late")
+    if late and len(built) == len(classes):
+        import copy
+        nm = late["nm"]
+        anc = {}
+
+        def ancs(k):
+            if k not in anc:
+                anc[k] = set()
+                for b_ in classes[k]["bases"]:
+                    anc[k] |= {b_} | ancs(b_)
+            return anc[k]
+        elig = []
+        for k, ck in enumerate(classes):
+            e = model.eff(k, nm)
+            own = [d for d in ck["defs"] if d["name"] == nm]
+            if (ck["ovldcls"] and own and e not in (None, UNSPEC, "F20") and e[0] == "table" and (k, nm) not in model.taint
+                    and not any(k in ancs(o) for o in range(len(classes)))
+                    and ovld.is_ovld(ns[ck["name"]].__dict__.get(nm))):
+                elig.append(k)
+        if elig:
+            k = elig[int(late["pick"] * len(elig))]
+            # a signature the class does not have yet: registering an identical signature again *stacks* (call_next of
+            # the newer reaches the older), which is C05 / C07's matter, not a class-body rule
+            fresh = [t for t in TYPES if t not in model.eff(k, nm)[1]]
+            late = dict(late, t=late["t"] if late["t"] in fresh else fresh[int(late["pick"] * len(fresh))]) if fresh else None
+        if elig and late:
+            newmid = 1 + max([d["mid"] for cc in classes for d in cc["defs"]] or [0])
+            classes2 = copy.deepcopy(classes)
+            classes2[k]["defs"].append({"mid": newmid, "name": nm, "t": late["t"], "ext": False, "kind": late["kind"], "po": False})
+            model2 = Model(classes2)
+            model2.taint = model.taint
+            body = (f"        return ('n', {newmid}, self, call_next(x))" if late["kind"] == "next"
+                    else f"        return ('m', {newmid}, self)")
+            src = (f"@{classes[k]['name']}.{nm}.register\ndef _late(self, x: {late['t']}):\n"
+                   f"        VF_.enter({newmid}, locals())\n{body}\n")
+            try:
+                _, f = load_source(src, ns2 if late["mod"] else ns, tag="c17", shared=True)
+                files.append(f)
+            except Exception as e:  # noqa: BLE001
+                res.violation("late-registration-raises", [type(e).__name__], spec,
+                              observed={"class": classes[k]["name"], "error": f"{type(e).__name__}: {str(e)[:80]}", "source": src},
+                              acceptable="registering one more definition on the method of a class is accepted")
+            else:
+                res.count("late_registrations")
+                if len({mods[x] for x in ancs(k) | {k}} | {late["mod"]}) > 1:
+                    res.count("late_registrations_across_modules")
+                probe_all(model2, classes2, k, {"name": classes[k]["name"] + "+late"})
     if has_mi and ext2:
         res.nontrivial([[c["bases"], c["root"], [(d["name"], d["t"], d["ext"], d["kind"]) for d in c["defs"]]]
                         for c in classes])
